@@ -546,6 +546,83 @@ pub fn grammar_sessions(tier: &str) -> Acc {
     })
 }
 
+/// Real-time sessions against the real binary (see realbin.rs). The only timing-dependent verdict is "no answer
+/// within LIMIT", with LIMIT far beyond anything a working engine needs for these tiny tasks.
+pub fn real_sessions(acc: &mut Acc) -> Option<String> {
+    use crate::realbin::Session;
+    use std::time::Duration;
+    let bin = crate::realbin::real_bin()?;
+    const LIMIT: Duration = Duration::from_secs(90);
+    type Step = (&'static str, &'static str); // (line to send, prefix of the line to wait for; "" = nothing)
+    let kvk = "position fen 8/8/4k3/8/8/4K3/8/8 w - - 0 1";
+    let scripts: Vec<(&str, Vec<Step>, bool)> = vec![
+        ("isready and stop during an infinite search", vec![("position startpos", ""), ("go infinite", "info depth"), ("isready", "readyok"), ("isready", "readyok"), ("stop", "bestmove"), ("isready", "readyok"), ("quit", "")], false),
+        ("move time", vec![("position startpos", ""), ("go movetime 300", "bestmove"), ("position startpos moves e2e4", ""), ("go depth 2", "bestmove"), ("isready", "readyok"), ("quit", "")], false),
+        ("clock without increments", vec![("position startpos", ""), ("go wtime 3000 btime 3000", "bestmove"), ("isready", "readyok"), ("quit", "")], false),
+        ("clock with increments, black to move", vec![("position startpos moves e2e4", ""), ("go wtime 3000 btime 3000 winc 100 binc 100", "bestmove"), ("quit", "")], false),
+        ("isready during a deep search of a tiny position", vec![(kvk, ""), ("go depth 200", "info depth"), ("isready", "readyok"), ("stop", "bestmove"), ("isready", "readyok"), ("quit", "")], false),
+        ("ucinewgame during a search", vec![("position startpos", ""), ("go infinite", "info depth"), ("ucinewgame", "bestmove"), ("isready", "readyok"), ("position startpos", ""), ("go depth 1", "bestmove"), ("quit", "")], false),
+        ("refused commands during a search are answered at once", vec![("position startpos", ""), ("go infinite", "info depth"), ("position startpos moves e2e4", "error"), ("go depth 1", "error"), ("show", "error"), ("stop", "bestmove"), ("quit", "")], false),
+        ("uci handshake", vec![("uci", "uciok"), ("isready", "readyok"), ("ucinewgame", ""), ("position startpos", ""), ("go depth 1", "bestmove"), ("quit", "")], false),
+        ("end of input while idle", vec![("position startpos", ""), ("go depth 1", "bestmove")], true),
+        ("end of input while searching", vec![("position startpos", ""), ("go infinite", "info depth")], true),
+        ("quit while searching", vec![("position startpos", ""), ("go infinite", "info depth"), ("quit", "")], false),
+    ];
+    for (name, steps, eof) in &scripts {
+        acc.states += 1;
+        acc.evaluations += 1;
+        let key = format!("real|{}", name);
+        let replay = json::obj(vec![("kind", json::s("c14-real")), ("name", json::s(*name))]);
+        let mut s = match Session::start(&bin) {
+            Ok(s) => s,
+            Err(e) => {
+                acc.errors.push(e);
+                continue;
+            }
+        };
+        let mut failed = None;
+        for (send, wait) in steps {
+            if let Err(e) = s.send(send) {
+                failed = Some(format!("sending `{}`: {}", send, e));
+                break;
+            }
+            acc.transitions += 1;
+            if !wait.is_empty() {
+                if let Err(e) = s.expect(|l| l.starts_with(wait), LIMIT) {
+                    failed = Some(format!("after `{}` no `{}` line: {}", send, wait, e));
+                    break;
+                }
+            }
+        }
+        if failed.is_none() {
+            if *eof {
+                s.close_stdin();
+            }
+            match s.wait_exit(LIMIT) {
+                Ok(0) => {}
+                Ok(c) => failed = Some(format!("exit status {} (stderr: {})", c, s.stderr_text())),
+                Err(e) => failed = Some(e),
+            }
+        }
+        let err = s.stderr_text();
+        if failed.is_none() && err.contains("panicked") {
+            failed = Some(format!("a thread panicked: {}", err));
+        }
+        if failed.is_none() {
+            let best = s.seen.iter().filter(|l| l.starts_with("bestmove")).count();
+            let gos = steps.iter().filter(|(l, w)| l.starts_with("go") && *w != "error").count();
+            if best > gos {
+                failed = Some(format!("{} bestmove lines for {} accepted go commands", best, gos));
+            }
+        }
+        match failed {
+            Some(f) => acc.violation(key, format!("real binary, session `{}` ({}): {}", name, steps.iter().map(|(l, _)| *l).collect::<Vec<_>>().join(" / "), f), replay),
+            None => acc.outcome(format!("real binary: {}", name)),
+        }
+    }
+    Some(bin)
+}
+
 pub fn run(tier: &str, seed: i64) -> Outcome {
     let nshards = 16;
     let args: Vec<Vec<String>> = (0..nshards).map(|i| vec!["C14".to_string(), tier.to_string(), seed.to_string(), "--worker".to_string(), format!("--shard={}/{}", i, nshards)]).collect();
@@ -563,6 +640,13 @@ pub fn run(tier: &str, seed: i64) -> Outcome {
     let gram = grammar_sessions(tier);
     reports.push(SpaceReport { name: format!("command grammar: all words of length <= 2 over {} command-line shapes (every go parameter x every kind of value, position shapes, junk), each followed by stop/isready, then show + go depth 1", grammar_lines().len()), states: gram.states, exhaustive: true, note: format!("[{:.1}s]", t2.elapsed().as_secs_f64()) });
     acc.merge(gram);
+    let t3 = std::time::Instant::now();
+    let mut real = Acc::new();
+    match real_sessions(&mut real) {
+        Some(bin) => reports.push(SpaceReport { name: format!("real binary ({}): 11 real-time sessions, verdict only on 'no answer within 90 s' / exit status / panic text", bin), states: real.states, exhaustive: true, note: format!("[{:.1}s]", t3.elapsed().as_secs_f64()) }),
+        None => real.errors.push("VERIF_REAL_BIN not set or missing: the real-binary sessions were not run".into()),
+    }
+    acc.merge(real);
     let mut out = Outcome::new(acc, reports, "every script runs the real uci_talk with its search and timer threads on OS threads serialised by a baton; schedule points are the hooked flag accesses, lock acquisitions, spawns, joins, stdin reads, node-entry polls and prints; the GUI is a pseudo-thread; iterative deviation bounding (preemption of a runnable thread or running a poller ahead of a runnable non-poller costs 1) explores every schedule within the bound; each execution is judged on its ordered transcript; a failing schedule is replayed twice and must reproduce the identical transcript");
     out.traces_validated = out.acc.evaluations;
     out.exhaustive = out.spaces[0].exhaustive;
@@ -577,6 +661,13 @@ pub fn run(tier: &str, seed: i64) -> Outcome {
 pub fn replay(j: &J, oracle_fn: &dyn Fn(&Exec) -> Option<String>) -> Result<Acc, String> {
     if j.get("kind").and_then(|x| x.as_str()) == Some("c14-deep") {
         return Ok(deep_sessions("quick"));
+    }
+    if j.get("kind").and_then(|x| x.as_str()) == Some("c14-real") {
+        let mut a = Acc::new();
+        if real_sessions(&mut a).is_none() {
+            return Err("replay needs the real binary (VERIF_REAL_BIN)".into());
+        }
+        return Ok(a);
     }
     if j.get("kind").and_then(|x| x.as_str()) == Some("c14-grammar") {
         return Ok(grammar_sessions("quick"));
